@@ -13,16 +13,15 @@ from vf import codec_run as R
 from vf import marshal_validation as MV
 
 META = {
-    'technique': 'Coq proof (induction over type trees; bit-level lemmas for varint/vint) that the model of cqltypes.to_binary equals an '
+    'technique': 'Coq proof (induction over type trees; marshal.py translated from source + bridge lemmas) that the model of cqltypes.to_binary equals an '
                  'independent specification of Cassandra\'s serializers + differential correspondence of model and spec with the real driver',
-    'level_text': 'PARTIAL proof: C02_fixed_width_exact, C02_scalar_exact_partial (all scalars but varint/decimal/duration: exact bytes on the range, '
-                  'refused outside), C02_null_element_exact (-1 for null, refused in v1/v2), C02_zigzag_exact, C02_uvint_reads_back, C02_vints_decode, '
-                  'C02_varint_value, C02_never_another_value and C02_decodes_image (all types, unbounded nesting) are proved. NOT proved: the lifting '
-                  'to_binary = spec_enc through arbitrary type trees (C02_full_statement), varint = BigInteger.toByteArray minimality, vint = VIntCoding; '
-                  'these are checked every run by comparing the driver\'s bytes with the Coq specification on generated nested values.',
+    'level_text': 'C02_full (to_binary = spec_result: exact bytes on every value that has an encoding, an exception otherwise, for every type tree, '
+                  'protocol version and kind-correct value, by induction over types), C02_exact, C02_rejects, C02_decodes_spec_image, C02_scalar_exact, '
+                  'C02_never_another_value, plus the source-level C02_source_* theorems (varint = BigInteger.toByteArray incl. minimality, vints/uvint = VIntCoding '
+                  'incl. rejection) and C02_bridge_source_eq_model, proved over Model/CqlCodec.v and Gallina regenerated from cassandra/marshal.py.',
     'level_note': 'The specification is my transcription of Cassandra\'s serializers (trusted). Fixed-width table for vectors is the driver\'s own. '
-                  'float32 rounding of Python floats is struct\'s (floats are quantified as bit patterns). marshal.py functions are hand-modelled '
-                  '(MarshalModel.v) and tied by correspondence until they are regenerated from source.',
+                  'float32 rounding of Python floats is struct\'s (floats are quantified as bit patterns). The type-directed codec (cqltypes.py) is a hand-written '
+                  'model tied by correspondence; marshal.py is translated (T) and bridged to the model.',
     'design_ref': 'DESIGN.md section 4, C02',
 }
 
